@@ -124,7 +124,9 @@ def origin(annotation: tp.Any) -> tp.Any:
     if not isbuiltintype(actual):
         actual = _check_generics(actual)
 
-    if iscallable(actual):
+    # Functions and the `Callable` ABC resolve to `typing.Callable`.
+    #   A class which merely defines `__call__` (or `type` itself) is still that class.
+    if actual is abc_Callable or (not inspect.isclass(actual) and iscallable(actual)):
         actual = tp.Callable
 
     return actual
